@@ -11,3 +11,4 @@ import LyModel.Props.C02
 #print axioms LyModel.Props.C02.minmax_family
 #print axioms LyModel.Props.C02.state_family
 #print axioms LyModel.Props.C02.validate_ok_iff_valid
+#print axioms LyModel.Props.C02.validate_error_tag
